@@ -1145,6 +1145,25 @@ class Register(GenericRegister):
             ][::-1]
         )
 
+    def _cohdlstd_write_base(self):
+        # current register content, used for the bytes of a masked write
+        # that are not selected (flags read as zero so they are never set
+        # by a write that does not select them)
+        return std.concat(
+            *[
+                (
+                    std.zeros(elem)
+                    if isinstance(elem, int)
+                    else (
+                        std.zeros(1)
+                        if isinstance(getattr(self, elem), FlagField)
+                        else getattr(self, elem)._to_bits_()
+                    )
+                )
+                for elem in self._field_layout_
+            ][::-1]
+        )
+
     async def _basic_read_(self, addr, meta):
         for value in self._notifications_.values():
             if value._cohdlstd_notify_mode is _NotifyOnRead:
@@ -1163,7 +1182,12 @@ class Register(GenericRegister):
             if value._cohdlstd_notify_mode is _NotifyOnWrite:
                 value.notify()
 
-        result = await std.as_awaitable(self._on_write_, type(self)._from_bits_(data))
+        # bytes that are not selected by the write mask keep their current value
+        masked_data = mask.apply(self._cohdlstd_write_base(), data)
+
+        result = await std.as_awaitable(
+            self._on_write_, type(self)._from_bits_(masked_data)
+        )
 
         if result is None:
             # check that self contains no memory
